@@ -20,7 +20,7 @@ SEEDED = '/verif/seeded'
 FAMILY = {
     'C01': ['C01', 'C04', 'C06'], 'C02': ['C02', 'C03'], 'C03': ['C03', 'C02'], 'C04': ['C04', 'C01'],
     'C06': ['C06', 'C01'], 'C07': ['C07'], 'C08': ['C08'], 'C09': ['C09'], 'C10': ['C10'], 'C11': ['C11', 'C02'],
-    'C05': ['C05', 'C12'], 'C12': ['C12', 'C05'], 'C13': ['C13', 'C17'], 'C14': ['C14'], 'C15': ['C15'],
+    'C05': ['C05', 'C12', 'C18'], 'C12': ['C12', 'C05'], 'C13': ['C13', 'C17'], 'C14': ['C14'], 'C15': ['C15'],
     'C16': ['C16'], 'C17': ['C17', 'C13'], 'C18': ['C18', 'C05'], 'C19': ['C19'], 'C20': ['C20'],
 }
 
